@@ -303,6 +303,15 @@ func (p *valParser) val() interface{} {
 			out[string(unhx(k[1:]))] = p.val()
 		}
 		return out
+	case 'Q':
+		n, _ := strconv.Atoi(t[1:])
+		out := map[string]int{}
+		for j := 0; j < n; j++ {
+			k := p.next()
+			v, _ := p.val().(int)
+			out[string(unhx(k[1:]))] = v
+		}
+		return out
 	case 'H':
 		id, _ := strconv.Atoi(t[1:])
 		return p.hosts[id]
